@@ -2,6 +2,7 @@ import io
 import logging
 import multiprocessing
 import os
+import pickle
 import sys
 import traceback
 from abc import ABC, abstractmethod
@@ -33,6 +34,22 @@ if TYPE_CHECKING:
     mpctx_Process = multiprocessing.Process  # pragma: no cover
 else:
     mpctx_Process = mpctx.Process
+
+
+def _picklable_exception(e: BaseException) -> BaseException:
+    """
+    Return the exception itself if it can be sent to another process and a RuntimeError
+    with the same message otherwise.
+
+    Some exceptions cannot be pickled (for example isal's IsalError, which is raised for
+    a corrupt gzip file). If sending the exception fails after the -2 marker has been
+    sent, the receiving process waits forever.
+    """
+    try:
+        pickle.loads(pickle.dumps(e))
+    except Exception:
+        return RuntimeError(f"{type(e).__name__}: {e}")
+    return e
 
 
 class ReaderProcess(mpctx_Process):
@@ -98,7 +115,9 @@ class ReaderProcess(mpctx_Process):
                     file_format = detect_file_format(files[0])
                 except Exception as e:
                     self._file_format_connection.send(-2)
-                    self._file_format_connection.send((e, traceback.format_exc()))
+                    self._file_format_connection.send(
+                        (_picklable_exception(e), traceback.format_exc())
+                    )
                     raise
                 self._file_format_connection.send(file_format)
                 for index, chunks in enumerate(self._read_chunks(*files)):
@@ -109,6 +128,7 @@ class ReaderProcess(mpctx_Process):
             # This code is rarely executed because there is little that can go wrong
             # splitting up the input into chunks. FASTQ/FASTA parsing problems
             # are caught within the workers.
+            e = _picklable_exception(e)
             for connection in self.connections:
                 connection.send(-2)
                 connection.send((e, traceback.format_exc()))
@@ -211,7 +231,7 @@ class WorkerProcess(mpctx_Process):
             self._write_pipe.send(stats)
         except Exception as e:
             self._write_pipe.send(-2)
-            self._write_pipe.send((e, traceback.format_exc()))
+            self._write_pipe.send((_picklable_exception(e), traceback.format_exc()))
 
     def _send_outfiles(self, chunk_index: int, n_reads: int):
         self._write_pipe.send(chunk_index)
